@@ -122,12 +122,18 @@ def file_content(f, fixed=False):
     return 'package %s\n\n%sf%d := %d\n' % (f['pkg'], c, f['id'], f['id'])
 
 
+def arg_is_walked(ws, a):
+    """filepath.WalkDir does not follow a symbolic link given as its root: an absolute argument whose last component
+    is the link through which the workspace is reached (ws.via == "link", argument = the workspace root) selects nothing"""
+    return not (ws.get('via') == 'link' and ws.get('abs_args') and a == '')
+
+
 def selected(ws):
     """the .rego files the command loads: below an argument, not below an ignored directory"""
     out = []
     for f in ws['files'] or []:
         pth = f['path']
-        under = any(a == '' or pth == a or pth.startswith(a + '/') for a in ws['args'])
+        under = any(a == '' or pth == a or pth.startswith(a + '/') for a in ws['args'] if arg_is_walked(ws, a))
         ign = ws.get('ignore') or ''
         if ign and ign.rstrip('/') in pth.split('/')[:-1]:
             under = False
